@@ -125,7 +125,7 @@ def side_case(seed):
     order = len(dims)
     solver = rng.choice(['solve', 'lu'])
     which = rng.choice(['als', 'mals'])
-    clause = rng.choice(['descent', 'fixed', 'fullrank'])
+    clause = rng.choice(['descent', 'fixed', 'fullrank', 'graded'])
     desc = dict(which=which, dims=dims, complex=cplx, solver=solver, clause=clause)
     run = (lambda g, r, **kw: sle.als(A, g, b, repeats=r, solver=solver)) if which == 'als' else \
           (lambda g, r, **kw: sle.mals(A, g, b, repeats=r, solver=solver, **kw))
@@ -166,6 +166,25 @@ def side_case(seed):
                 return ('energy-norm error larger than that of the initial guess: %.6g > %.6g' % (es[0], e0)), dict(desc, tags=dict(tags, clause='descent'))
             if es[1] > es[0] + tol or es[2] > es[1] + tol:
                 return ('more sweeps made the energy-norm error larger: %s' % (es,)), dict(desc, tags=dict(tags, clause='monotone'))
+        elif clause == 'graded':
+            # a solution with a graded singular spectrum (1, 1e-4, 1e-8 on its bonds): with maximal ranks one sweep is exact to
+            # rounding, small singular directions included (the default relative cut of mals is 1e-12)
+            nrng = np.random.default_rng(rng.getrandbits(32))
+            xg = np.zeros(dims, dtype=complex if cplx else float)
+            for k_ in range(3):
+                term = np.ones([1] * order)
+                for i_, d_ in enumerate(dims):
+                    v_ = nrng.standard_normal(d_) + (1j * nrng.standard_normal(d_) if cplx else 0)
+                    term = term * v_.reshape([d_ if j_ == i_ else 1 for j_ in range(order)])
+                xg = xg + (1e-4 ** k_) * term / np.linalg.norm(term)
+            xg = xg.reshape(-1)
+            bg = TT((Am @ xg).reshape(dims + [1] * order))
+            g = gen_tt(rng, dims, [1] * order, max_ranks(dims), cplx, 'float')
+            s = sle.als(A, g, bg, repeats=1, solver=solver) if which == 'als' else sle.mals(A, g, bg, repeats=1, solver=solver)
+            err = float(np.linalg.norm(dense(s.cores).reshape(-1) - xg)) / float(np.linalg.norm(xg))
+            cond = float(np.linalg.cond(Am))
+            if err > 1e-10 * max(1.0, cond / 100):
+                return 'graded solution, maximal ranks: relative error %.2e after one sweep (condition number %.1e)' % (err, cond), desc
         elif clause == 'fixed':
             g = TT(xs.reshape(dims + [1] * order))
             s = run(g, rng.randint(1, 2))
